@@ -3,7 +3,10 @@
 package layout
 
 import (
+	"fmt"
+
 	pr "github.com/benoitkugler/webrender/css/properties"
+	bo "github.com/benoitkugler/webrender/html/boxes"
 )
 
 // Contracts for the deductive verifier in /verif (build tag verif: not compiled
@@ -388,3 +391,78 @@ var _ = pr.AutoF
 //@   unclaimed call-*-pre1 "preconditions of geometry readers and break classifiers on boxes under layout (resolved margins, validated break values, non-nil context): established by earlier layout steps, not tracked through the box tree"
 //@   loop 3 invariant width == borderSpacingX*real(cell.Colspan-1) - bordersPlusPadding + sum(spannedWidths, 0, rangeindex+1)
 //@   loop 3 exit[span-covers-columns] width + bordersPlusPadding == borderSpacingX*real(cell.Colspan-1) + sum(spannedWidths, 0, len(spannedWidths))
+
+// getClearance only reads the box, its style and the floats placed so far
+//@ func getClearance
+//@   props C10
+//@   modifies nothing
+//@   unclaimed call-MarginHeight@*-pre1 "the floats placed so far have resolved margins, paddings and heights: not tracked through the list of excluded shapes"
+
+// CSS 2.1 §8.3.1: the top and bottom margins of a box are adjoining (the box is "collapsed through") only if
+// it has no in-flow content, its height is auto or 0, its min-height is 0 and it has no top or bottom border
+// or padding.
+//@ func blockContainerLayout
+//@   props C10
+//@   modifies anything
+//@   unclaimed call-*-pre* "preconditions of layout helpers on boxes under layout (resolved margins, non-nil context): established by earlier layout steps, not tracked through the box tree"
+//@   assert after collapsingThrough#2: lastInFlowChild == nil && (box.Height == pr.AutoF || box.Height == pr.Float(0)) && box.MinHeight == pr.Float(0) && box.BorderTopWidth == pr.Float(0) && box.PaddingTop == pr.Float(0) && box.BorderBottomWidth == pr.Float(0) && box.PaddingBottom == pr.Float(0)
+
+// ---------------------------------------------------------------------------
+// bounded stand-in (C12): orphans / widows. breakLine is called when a line overflows the page; the
+// lines it keeps or takes back live behind pointers that its helpers (placeholder and footnote
+// bookkeeping) are free to touch as far as the contracts can tell, so its effect is checked by
+// running it: for every orphans, widows in 1..4, 0..7 lines already placed, the overflowing line being
+// the last of the paragraph, on a non-empty page. Oracle (CSS 2.1 §13.3.3 / css-break-3 §4.3): with
+// total = placed + 1 lines, no break is allowed inside the box if total < orphans + widows (the box is
+// cancelled: abort); otherwise at least `orphans` lines stay, at least `widows` lines go to the next page,
+// and no line is taken back without need: kept == min(placed, total - widows).
+
+type vStyle struct{ pr.Properties }
+
+func (s vStyle) Set(key pr.PropKey, value pr.CssProperty) { s.Properties[key.KnownProp] = value }
+func (s vStyle) Get(key pr.PropKey) pr.CssProperty        { return s.Properties[key.KnownProp] }
+func (s vStyle) Copy() pr.ElementStyle                    { return vStyle{s.Properties.Copy()} }
+func (s vStyle) ParentStyle() pr.ElementStyle             { return nil }
+func (s vStyle) Variables() map[string]pr.RawTokens       { return nil }
+func (s vStyle) Specified() pr.SpecifiedAttributes        { return pr.SpecifiedAttributes{} }
+func (s vStyle) Cache() pr.TextRatioCache                 { return pr.NewTextRatioCache() }
+
+func vBreakLineOrphansWidows() (int, []string) {
+	n := 0
+	var fails []string
+	for orphans := 1; orphans <= 4; orphans++ {
+		for widows := 1; widows <= 4; widows++ {
+			for placed := 0; placed <= 7; placed++ {
+				n++
+				style := vStyle{pr.Properties{}}
+				style.SetOrphans(pr.Int(orphans))
+				style.SetWidows(pr.Int(widows))
+				box := &bo.BoxFields{Style: style}
+				newChildren := make([]Box, placed)
+				for i := range newChildren {
+					newChildren[i] = &bo.LineBox{}
+				}
+				var absoluteBoxes, fixedBoxes []*AbsolutePlaceholder
+				abort, stop, _ := breakLine(&layoutContext{}, box, &bo.LineBox{}, &newChildren, &lineBoxeIterator{done: true},
+					false, 0, nil, nil, &absoluteBoxes, &fixedBoxes)
+				total := placed + 1
+				wantAbort := total < orphans+widows
+				kept := len(newChildren)
+				wantKept := placed
+				if total-widows < wantKept {
+					wantKept = total - widows
+				}
+				switch {
+				case abort != wantAbort:
+					fails = append(fails, fmt.Sprintf("orphans=%d widows=%d placed=%d: abort=%v, expected %v", orphans, widows, placed, abort, wantAbort))
+				case !abort && (!stop || kept != wantKept):
+					fails = append(fails, fmt.Sprintf("orphans=%d widows=%d placed=%d: stop=%v, %d lines kept and %d pushed, expected %d kept", orphans, widows, placed, stop, kept, total-kept, wantKept))
+				}
+			}
+		}
+	}
+	return n, fails
+}
+
+//@ bounded vBreakLineOrphansWidows breakLine on a non-empty page for orphans, widows in 1..4 and 0..7 lines already placed (the overflowing line is the last one), against the orphans/widows rule
+//@   props C12
